@@ -214,7 +214,8 @@ func init() {
 			More: [][2]string{{"func baseType(t *itype) *itype {", "func slotFor(sc *scope, ident string, typ *itype) int {\n\tif sym, ok := sc.sym[ident]; ok && sym.kind == varSym && sym.global {\n\t\treturn sym.index\n\t}\n\treturn sc.add(typ)\n}\n\nfunc baseType(t *itype) *itype {"}}, Rule: "R11.6", Key: "gta/global-var-symbol#1/fresh-slot"},
 		mutant{Name: "function-redefinition-updates-symbol-in-place", Prop: "C11", File: "interp/gta.go", Old: "\t\t\t\tsc.sym[ident] = &symbol{kind: funcSym, typ: n.typ, node: n, index: -1}\n", New: "\t\t\t\tif sym, ok := sc.sym[ident]; ok && sym.kind == funcSym {\n\t\t\t\t\tsym.typ, sym.node = n.typ, n\n\t\t\t\t} else {\n\t\t\t\t\tsc.sym[ident] = &symbol{kind: funcSym, typ: n.typ, node: n, index: -1}\n\t\t\t\t}\n", Rule: "R11.6", Key: "gta/symbol-node-repointed"},
 		mutant{Name: "readiness-waits-for-variables-of-earlier-evaluations", Prop: "C11", File: "interp/cfg.go", Old: "\t\t\t\tif current[d] && !inited[d] {\n", New: "\t\t\t\tif !inited[d] {\n", Rule: "R11.7", Key: "genGlobalVarDecl/readiness#1/batch-only"},
-		mutant{Name: "multi-value-var-symbols-not-tracked", Prop: "C15", File: "interp/gta.go", Old: "\t\t\t\t\tsym.global = true\n\t\t\t\t\tsym.node = n\n", New: "\t\t\t\t\tsym.global = true\n", Rule: "R15.7", Key: "gta/case:defineXStmt/var-symbol-tracked"},
+		mutant{Name: "multi-value-var-symbols-not-tracked", Prop: "C15", File: "interp/gta.go", Old: "\t\t\t\t\tsym.node = n\n", New: "\t\t\t\t\tsym.rval = sym.rval\n", Rule: "R15.7", Key: "gta/case:defineXStmt/var-symbol-tracked"},
+		mutant{Name: "collector-demands-global-flag-again", Prop: "C15", File: "interp/cfg.go", Old: "\t\t\tcase sym.kind == varSym && sym.node != nil && sym.node != nod:\n", New: "\t\t\tcase sym.kind == varSym && sym.global && sym.node != nil && sym.node != nod:\n", Rule: "R15.7", Key: "gta/case:defineXStmt/var-symbol-tracked"},
 		mutant{Name: "land-false-outcome-leaves-result-stale", Prop: "C01", File: "interp/run.go", Old: "\t\t\tif value0(f).Bool() && value1(f).Bool() {\n\t\t\t\tdest(f).SetBool(true)\n\t\t\t\treturn tnext\n\t\t\t}\n\t\t\tdest(f).SetBool(false)\n\t\t\treturn fnext\n", New: "\t\t\tif value0(f).Bool() && value1(f).Bool() {\n\t\t\t\tdest(f).SetBool(true)\n\t\t\t\treturn tnext\n\t\t\t}\n\t\t\treturn fnext\n", Rule: "R01.8", Key: "land/closure#1/result-stored-on-every-path"},
 		mutant{Name: "map-index-miss-leaves-result-stale", Prop: "C01", File: "interp/run.go", Old: "\t\t\t\tif v := value0(f).MapIndex(value1(f)); v.IsValid() {\n\t\t\t\t\tdest(f).Set(v)\n\t\t\t\t} else {\n\t\t\t\t\tdest(f).Set(z)\n\t\t\t\t}\n", New: "\t\t\t\tif v := value0(f).MapIndex(value1(f)); v.IsValid() {\n\t\t\t\t\tdest(f).Set(v)\n\t\t\t\t}\n", Rule: "R01.8", Key: "getIndexMap/closure#4/result-stored-on-every-path"},
 		mutant{Name: "map-index2-miss-leaves-value-stale", Prop: "C01", File: "interp/run.go", Old: "\t\t\t\tv := value0(f).MapIndex(value1(f))\n\t\t\t\tif v.IsValid() {\n\t\t\t\t\tdest(f).Set(v)\n\t\t\t\t} else {\n\t\t\t\t\tdest(f).Set(z)\n\t\t\t\t}\n\t\t\t\tif doStatus {", New: "\t\t\t\tv := value0(f).MapIndex(value1(f))\n\t\t\t\tif v.IsValid() {\n\t\t\t\t\tdest(f).Set(v)\n\t\t\t\t}\n\t\t\t\tif doStatus {", Rule: "R01.8", Key: "getIndexMap2/closure#4/result-stored-on-every-path"},
@@ -222,6 +223,10 @@ func init() {
 		mutant{Name: "range-string-key-only-uses-rune-index", Prop: "C01", File: "interp/run.go", Old: "\t\t\t\tpos := a.Slice(0, i).Convert(stringType).Len()\n\t\t\t\tf.data[index0].SetInt(int64(pos))\n\t\t\t\treturn tnext\n", New: "\t\t\t\tf.data[index0].SetInt(int64(i))\n\t\t\t\t_ = stringType\n\t\t\t\treturn tnext\n", Rule: "R01.9", Key: "_range/string-variant#2/byte-offsets"},
 		mutant{Name: "loop-variable-idiom-ignores-the-source", Prop: "C01", File: "interp/cfg.go", Old: "if fi != nil && dest.ident == fi.ident && src.kind == identExpr && src.ident == dest.ident {", New: "if fi != nil && dest.ident == fi.ident {", Rule: "R01.11", Key: "cfg/loop-variable-idiom#1/source-is-the-variable"},
 		mutant{Name: "multi-value-declaration-not-retried", Prop: "C15", File: "interp/gta.go", Old: "\t\t\tif err2 := compDefineX(sc, n); err2 != nil {\n", New: "\t\t\tif err = compDefineX(sc, n); err != nil {\n\t\t\t\treturn false\n\t\t\t}\n\t\t\tif err2 := error(nil); err2 != nil {\n", Rule: "R15.8", Key: "gta/case:defineXStmt/unresolved-is-retried"},
+		mutant{Name: "option-terms-cut-once-not-iterated", Prop: "C17", File: "interp/build.go", Old: "\tfor _, t := range strings.Split(tag, \",\") {\n\t\tif !buildTagOk(ctx, t) {\n\t\t\treturn false\n\t\t}\n\t}\n\treturn true\n", New: "\tt, rest, more := strings.Cut(tag, \",\")\n\tif !buildTagOk(ctx, t) {\n\t\treturn false\n\t}\n\treturn !more || buildTagOk(ctx, rest)\n", Rule: "R17.6", Key: "constraint-levels/,"},
+		mutant{Name: "anonymous-eval-resets-the-source-name", Prop: "C11", File: "interp/program.go", Old: "\tif name != \"\" {\n\t\tinterp.name = name\n\t}\n\tif interp.name == \"\" {\n\t\tinterp.name = DefaultSourceName\n\t}\n", New: "\tif name == \"\" {\n\t\tname = DefaultSourceName\n\t}\n\tinterp.name = name\n", Rule: "R11.8", Key: "Interpreter.compileSrc/source-name-store#1/guarded"},
+		mutant{Name: "multi-value-define-symbols-flagged-global", Prop: "C11", File: "interp/cfg.go", Old: "\t\t\tsc.sym[id] = &symbol{index: index, kind: varSym, typ: t}\n", New: "\t\t\tsc.sym[id] = &symbol{index: index, kind: varSym, global: sc.global, typ: t, node: n}\n", Rule: "R11.9", Key: "compDefineX/var-symbols-not-global"},
+		mutant{Name: "gta-flags-multi-value-variables-global", Prop: "C11", File: "interp/gta.go", Old: "\t\t\t\t\tsym.node = n\n", New: "\t\t\t\t\tsym.global = true\n\t\t\t\t\tsym.node = n\n", Rule: "R11.9", Key: "compDefineX/var-symbols-not-global"},
 		// ---- C18
 		mutant{Name: "var-bound-by-value-in-generator", Prop: "C18", File: "extract/extract.go", Old: "\t\t\tval[name] = Val{pname, true}", New: "\t\t\tval[name] = Val{pname, false}", Rule: "R18.2", Key: "genContent/addr-only-for-vars"},
 		mutant{Name: "template-forwards-wrong-field", Prop: "C18", File: "extract/extract.go", Old: "\t\t\t{{- $m.Ret}} W.W{{$m.Name}}{{$m.Arg -}}", New: "\t\t\t{{- $m.Ret}} W.{{$m.Name}}{{$m.Arg -}}", Rule: "R18.3", Key: "model/wrapper-method"},
